@@ -22,7 +22,7 @@ import (
 //
 //	Fam: ann env mount dev            — keyed, removable   (Act: set | del | reset)
 //	     cdi rlimit huge unified      — keyed, set only    (Act: set)
-//	     args                         — Act: set | reset (reset = UpdateArgs, leading "")
+//	     args                         — Act: set | reset (reset = UpdateArgs, leading "") | del (UpdateArgs with no arguments)
 //	     hook                         — Key = hook list, Act: add (append, never conflicts)
 //	     cgroups oom <scalar fields>  — Act: set
 type Op struct {
@@ -37,6 +37,9 @@ type Op struct {
 	// the runtime's original value of that item, "p<k>" = the value pool plugin k would
 	// write. The plugin still *sets* the item (claims it); only the value coincides.
 	ValOf string `json:"val_of,omitempty"`
+	// Payload makes a removal marker (del / reset of ann, env, mount, dev) carry a whole entry
+	// beside its marked key, as a plugin that marks the container's own entry in place sends it
+	Payload bool `json:"payload,omitempty"`
 }
 
 // Upd is one container update requested by a plugin.
@@ -250,7 +253,8 @@ func genOp(t *rapid.T, used map[string]bool) (Op, bool) {
 		op.Act = "set"
 	case 6:
 		op.Fam = "args"
-		op.Act = rapid.SampledFrom([]string{"set", "reset"}).Draw(t, "act")
+		// del = the bare override marker: UpdateArgs with no arguments (Args == [""])
+		op.Act = rapid.SampledFrom([]string{"set", "reset", "del"}).Draw(t, "act")
 	case 7:
 		op.Fam = "hook"
 		op.Key = rapid.SampledFrom(hookKeys).Draw(t, "key")
@@ -424,6 +428,17 @@ func GenCase(t *rapid.T, b Bias) Case {
 	}
 	if c.Kind == "stop" && b.Collide > 0 && gen.Uniform(t, "stopstory", 3) == 0 {
 		forceStopStory(t, &c)
+	}
+	if c.Kind == "create" && gen.Uniform(t, "payloads", 3) == 0 {
+		// removal markers that carry a whole entry beside the marked key
+		for i := range c.Chain {
+			for k := range c.Chain[i].Ops {
+				op := &c.Chain[i].Ops[k]
+				if (op.Act == "del" || op.Act == "reset") && (op.Fam == "ann" || op.Fam == "env" || op.Fam == "mount" || op.Fam == "dev") {
+					op.Payload = rapid.Bool().Draw(t, "payload")
+				}
+			}
+		}
 	}
 	if gen.Uniform(t, "delays", 8) == 0 {
 		for i := range c.Chain {
@@ -972,9 +987,9 @@ func forceRelease(t *rapid.T, c *Case) {
 		participants++
 		var acts []string
 		if fam == "args" {
-			acts = []string{"reset"}
+			acts = []string{"reset", "del"}
 			if !owned {
-				acts = append(acts, "set")
+				acts = append(acts, "set", "set")
 			}
 		} else {
 			acts = []string{"del", "reset"}
